@@ -177,9 +177,9 @@ func cmdCheck(args []string) {
 	}
 	res := runProperty(p, id, *tier, seed, findings)
 	res.ev.WallS = time.Since(t0).Seconds()
-	os.MkdirAll("/verif/evidence", 0o755)
+	os.MkdirAll(outDir("evidence"), 0o755)
 	data, _ := json.MarshalIndent(res.ev, "", " ")
-	if err := os.WriteFile(filepath.Join("/verif/evidence", id+".json"), data, 0o644); err != nil {
+	if err := os.WriteFile(filepath.Join(outDir("evidence"), id+".json"), data, 0o644); err != nil {
 		fmt.Fprintln(os.Stderr, "govc: cannot write evidence:", err)
 		os.Exit(2)
 	}
@@ -620,7 +620,7 @@ type replayInfo struct {
 }
 
 func writeReplay(id string, o *Obligation, vc *VC) replayInfo {
-	dir := filepath.Join("/verif/replays", id)
+	dir := filepath.Join(outDir("replays"), id)
 	os.MkdirAll(dir, 0o755)
 	path := filepath.Join(dir, sanitize(o.Name)+".json")
 	rep := map[string]interface{}{
@@ -648,7 +648,7 @@ func writeReplay(id string, o *Obligation, vc *VC) replayInfo {
 }
 
 func writeStaleReplay(id, key string) string {
-	dir := filepath.Join("/verif/replays", id)
+	dir := filepath.Join(outDir("replays"), id)
 	os.MkdirAll(dir, 0o755)
 	path := filepath.Join(dir, sanitize(key)+".stale.json")
 	data, _ := json.MarshalIndent(map[string]string{"property": id, "obligation": key, "reason": "contract-stale: no function with this key exists in the current tree (renamed or removed)", "replay_status": "no-failing-input-found"}, "", " ")
@@ -692,4 +692,14 @@ func writeJSON(dir, name string, v interface{}) string {
 	data, _ := json.MarshalIndent(v, "", " ")
 	os.WriteFile(path, data, 0o644)
 	return path
+}
+
+// outDir: where evidence and replay files go (default /verif; GOVC_OUT redirects it when the checks
+// are tried against a scratch copy with a seeded change)
+func outDir(sub string) string {
+	base := "/verif"
+	if d := os.Getenv("GOVC_OUT"); d != "" {
+		base = d
+	}
+	return filepath.Join(base, sub)
 }
